@@ -1,0 +1,57 @@
+// Copyright (c) 2019,CAOHONGJU All rights reserved.
+// Use of this source code is governed by a MIT-style
+// license that can be found in the LICENSE file.
+
+//go:build verif
+// +build verif
+
+package media
+
+import (
+	"sync/atomic"
+	"time"
+)
+
+// VerifQueueLen 仅供仿真使用：返回指定消费者的积压队列长度；不存在返回 -1。
+func (s *Stream) VerifQueueLen(cid CID) int {
+	cs := &s.consumptions
+	if cid.Type() == FLVPacket {
+		cs = &s.flvConsumptions
+	}
+	c, ok := cs.Load(cid)
+	if !ok {
+		return -1
+	}
+	return c.(*consumption).recvQueue.Len()
+}
+
+// VerifStatus 仅供仿真使用：返回流状态。
+func (s *Stream) VerifStatus() int32 {
+	return atomic.LoadInt32(&s.status)
+}
+
+// VerifIdleClose 仅供仿真使用：空闲关闭判定任务的包装。
+type VerifIdleClose struct {
+	r *runZeroConsumersClose
+}
+
+// VerifNewIdleClose 构造与 runZeroConsumersCloseTask 相同的判定对象，但不投递到调度器。
+func VerifNewIdleClose(s *Stream, closedStatus int32) *VerifIdleClose {
+	return &VerifIdleClose{r: &runZeroConsumersClose{
+		s:           s,
+		d:           time.Minute * 5,
+		closedStats: closedStatus,
+	}}
+}
+
+// Run 执行一次判定。
+func (v *VerifIdleClose) Run() { v.r.run() }
+
+// Next 返回下一次执行时间（零值表示任务结束）。
+func (v *VerifIdleClose) Next(t time.Time) time.Time { return v.r.Next(t) }
+
+// VerifReset 仅供仿真使用：清空注册表和拉流工厂。
+func VerifReset() {
+	UnregistAll()
+	psFactories = nil
+}
